@@ -69,7 +69,16 @@ struct Rng {
   uint64_t below(uint64_t n) { return n ? next() % n : 0; }
 };
 
-inline long futex(int* addr, int op, int val) { return syscall(SYS_futex, addr, op, val, nullptr, nullptr, 0); }
+// raw system call (the libc wrapper `syscall` is interposed further down to model futex waits)
+inline long raw_syscall6(long n, long a, long b, long c, long d, long e, long f) {
+  long ret;
+  register long r10 __asm__("r10") = d;
+  register long r8 __asm__("r8") = e;
+  register long r9 __asm__("r9") = f;
+  __asm__ volatile("syscall" : "=a"(ret) : "a"(n), "D"(a), "S"(b), "d"(c), "r"(r10), "r"(r8), "r"(r9) : "rcx", "r11", "memory");
+  return ret;
+}
+inline long futex(int* addr, int op, int val) { return raw_syscall6(SYS_futex, (long)addr, op, val, 0, 0, 0); }
 
 // ------------------------------------------------------------------------------------------
 // state
@@ -1522,6 +1531,14 @@ int pthread_cond_timedwait(pthread_cond_t* c, pthread_mutex_t* m, const struct t
   if (!real_cond_timedwait) resolve_real();
   return real_cond_timedwait(c, m, ts);
 }
+int pthread_cond_clockwait(pthread_cond_t* c, pthread_mutex_t* m, clockid_t, const struct timespec* ts) {
+  Task* t = live_task();
+  if (t) return cond_wait_model(t, c, m, true, PC());
+  if (!real_cond_timedwait) resolve_real();
+  return real_cond_timedwait(c, m, ts);
+}
+int pthread_mutex_timedlock(pthread_mutex_t* m, const struct timespec*) { return pthread_mutex_lock(m); }
+int pthread_mutex_clocklock(pthread_mutex_t* m, clockid_t, const struct timespec*) { return pthread_mutex_lock(m); }
 int pthread_cond_signal(pthread_cond_t* c) {
   Task* t = live_task();
   if (t) return cond_signal_model(t, c, false, PC());
@@ -1650,10 +1667,68 @@ int sched_yield(void) {
   return 0;
 }
 
+// ---- futex waits issued through the libc `syscall` wrapper (std::atomic<T>::wait / notify_*,
+// std::latch, std::barrier, std::counting_semaphore in libstdc++): modelled as block / wake on the
+// address; everything else is passed to the kernel ----
+long syscall(long number, ...) {
+  va_list ap;
+  va_start(ap, number);
+  long a = va_arg(ap, long), b = va_arg(ap, long), c = va_arg(ap, long), d = va_arg(ap, long), e = va_arg(ap, long),
+       f = va_arg(ap, long);
+  va_end(ap);
+  Task* t = (number == SYS_futex) ? live_task() : nullptr;
+  if (!t) {
+    long rc = raw_syscall6(number, a, b, c, d, e, f);
+    if (rc < 0 && rc > -4096) { errno = (int)-rc; return -1; }
+    return rc;
+  }
+  int op = (int)b & 127 & ~FUTEX_PRIVATE_FLAG;
+  t->in_rt = 1;
+  long rc = 0;
+  if (op == FUTEX_WAIT || op == FUTEX_WAIT_BITSET) {
+    yield_point(t, EV_MUTEX, 9, PC());
+    SyncObj* s = sync_lookup((uintptr_t)a, SK_ATOMIC, true);
+    if (__atomic_load_n((int*)a, __ATOMIC_SEQ_CST) != (int)c) {
+      errno = EAGAIN;
+      rc = -1;
+    } else {
+      t->cond_signalled = 0;
+      t->timed_wait = d != 0;  // a timeout was given: may time out when nothing else can run
+      block_on(t, (uintptr_t)a | 1);  // distinct from mutex / cond waits on the same address
+      t->timed_wait = 0;
+      acquire(t, s);
+      if (!t->cond_signalled) { errno = ETIMEDOUT; rc = -1; }
+    }
+  } else if (op == FUTEX_WAKE || op == FUTEX_WAKE_BITSET) {
+    yield_point(t, EV_MUTEX, 10, PC());
+    SyncObj* s = sync_lookup((uintptr_t)a, SK_ATOMIC, true);
+    release_join(t, s);
+    long n = 0;
+    for (int i = 0; i < g.ntasks && n < c; ++i) {
+      Task& w = g.tasks[i];
+      if (w.state == T_BLOCKED && w.blocked_on == ((uintptr_t)a | 1)) {
+        w.state = T_RUN;
+        w.blocked_on = 0;
+        w.cond_signalled = 1;
+        ++n;
+      }
+    }
+    rc = n;
+  } else {
+    unsupported(t, "futex operation other than wait/wake");
+  }
+  t->in_rt = 0;
+  return rc;
+}
+
 // ---- simulated clock: the only clock the instrumented code can read ----
 int clock_gettime(clockid_t id, struct timespec* ts) {
   Task* t = live_task();
-  if (!t) return (int)syscall(SYS_clock_gettime, id, ts);
+  if (!t) {
+    long rc = raw_syscall6(SYS_clock_gettime, (long)id, (long)ts, 0, 0, 0, 0);
+    if (rc < 0) { errno = (int)-rc; return -1; }
+    return 0;
+  }
   t->in_rt = 1;
   yield_point(t, EV_CLOCK, 0, PC());
   ts->tv_sec = (time_t)(g.step / 1000000000ull);
